@@ -22,7 +22,7 @@ ASSUMPTIONS = ["maxAttempts is not judged (the generator ignores it and the prop
 
 REQUIRED_PROBES = ["retry_fired", "deadline_exhausted", "nonretryable_surface", "unnamed_method_called",
                    "async_retry_fired", "explicit_retry", "explicit_timeout", "attempt_deadline_fired",
-                   "timeout_without_retry", "retry_without_timeout"]
+                   "timeout_without_retry", "retry_without_timeout", "rest_call", "rest_retry_fired"]
 
 
 def gen_spec(rng):
@@ -101,12 +101,16 @@ def gen_scenarios(spec, rng, n):
         kinds = []
         if "grpc" in transports:
             kinds += ["sync", "async", "async"]
+        if "rest" in transports:
+            kinds += ["rest"]
         client = rng.choice(kinds)
         nops = rng.randint(1, 4)
         nact = 1 if client != "async" else rng.randint(1, 3)
         actors = [{"start": round(rng.choice([0, 0, 0.01, 0.3]) * (a > 0), 3), "ops": []} for a in range(nact)]
         for j in range(nops):
             fs, s, m = rng.choice(meths)
+            if client == "rest" and not m.get("http"):
+                continue
             op = gen_op(spec, rng, fs, s, m, f"o{j}", client)
             rng.choice(actors)["ops"].append(op)
         actors = [a for a in actors if a["ops"]]
@@ -137,6 +141,16 @@ def gen_op(spec, rng, fs, s, m, oid, client):
     # fault script
     codes = eff_pol["codes"] if eff_pol else []
     non = [x for x in engine.ALL_CODES if x not in codes]
+    universe = engine.ALL_CODES
+    if client == "rest":
+        # over HTTP only five codes come back as the same api-core class (api-core's mapping)
+        from .. import simhttp
+        universe = simhttp.ROUND_TRIP
+        if isinstance(call.get("retry"), dict):
+            call["retry"]["codes"] = sorted(set(rng.sample(simhttp.ROUND_TRIP, rng.randint(1, 2))))
+            codes = call["retry"]["codes"]
+        codes = [c for c in codes if c in universe]
+        non = [x for x in universe if x not in (eff_pol["codes"] if eff_pol else [])]
     script = []
     shape = rng.random()
     lat = lambda: rng.choice([0.0, 0.0, 0.01, 0.05, 0.3, 1.2])  # noqa
@@ -151,9 +165,9 @@ def gen_op(spec, rng, fs, s, m, oid, client):
     if k == 60 and (retry_T is None or not codes):
         k = rng.randint(3, 9)
     for _ in range(k):
-        code = rng.choice(codes) if codes and rng.random() < 0.9 else rng.choice(non or engine.ALL_CODES)
+        code = rng.choice(codes) if codes and rng.random() < 0.9 else rng.choice(non or codes or universe)
         o = {"code": code, "lat": lat() if k < 60 else max(0.05, (retry_T or 1.0) * rng.choice([0.03, 0.1, 0.2]))}
-        if eff_T is not None and rng.random() < 0.08:
+        if eff_T is not None and rng.random() < 0.08 and client != "rest":
             o = {"lat": eff_T * rng.choice([1.5, 3.0]), "code": None}   # stall beyond the attempt deadline
         script.append(o)
     if rng.random() < 0.2 and non:
@@ -169,9 +183,17 @@ def gen_op(spec, rng, fs, s, m, oid, client):
         jit = [0.0] * (len(script) + 1)
     else:
         jit = [rng.choice([0.0, 0.25, 0.5, 0.75, 1.0, round(rng.random(), 3)]) for _ in range(len(script) + 1)]
-    return {"id": oid, "kind": "unary", "service": s["name"], "method": m["name"],
-            "form": rng.choice(["dict", "msg", "none"]), "request": {}, "call": call, "server": script,
-            "jitter": jit}
+    if client == "rest" and eff_T is not None:
+        for o in script:      # the simulated HTTP adapter does not model read timeouts: replies always beat the deadline
+            o["lat"] = min(o.get("lat", 0.0), round(eff_T / 4, 6))
+    op = {"id": oid, "kind": "unary", "service": s["name"], "method": m["name"],
+          "form": rng.choice(["dict", "msg", "none"]), "request": {}, "call": call, "server": script,
+          "jitter": jit}
+    if client == "rest":
+        from . import c04
+        op["form"] = rng.choice(["dict", "msg"])
+        c04._fill_path_vars(rng, op["request"], m, m["http"], "ok")
+    return op
 
 
 def server_factory(run):
@@ -232,6 +254,8 @@ def judge_op(spec, scenario, op, evs, probes):
     if T_entry is None and pol_entry is not None:
         _bump(probes, "retry_without_timeout")
     is_async = scenario["client"] == "async"
+    if scenario["client"] == "rest":
+        _bump(probes, "rest_call")
 
     def V(rule, msg):
         return [{"rule": rule, "op": op["id"], "method": path, "msg": msg}]
@@ -254,7 +278,7 @@ def judge_op(spec, scenario, op, evs, probes):
             return V("missing_attempt", f"model expects attempt {k} at t={expect_t:.6f} but the client stopped after "
                      f"{len(attempts)} attempt(s) with {outcome['k']} {outcome.get('cls')}")
         a = attempts[k - 1]
-        if a["path"] != path:
+        if a.get("tr") != "rest" and a["path"] != path:
             return V("wrong_path", f"attempt {k} went to {a['path']}")
         if abs(a["t"] - expect_t) > TOL:
             return V("attempt_time", f"attempt {k} started at t={a['t']:.6f}, model says {expect_t:.6f} "
@@ -273,7 +297,7 @@ def judge_op(spec, scenario, op, evs, probes):
                 return V("later_attempt_deadline", f"attempt {k} carries timeout={to}; expected within (0, {T}]")
         o = script[min(k, len(script)) - 1]
         lat = o.get("lat", 0.0)
-        if to is not None and lat > to:
+        if to is not None and lat > to and a.get("tr") != "rest":   # (the HTTP adapter does not model read timeouts)
             code, dur = "DEADLINE_EXCEEDED", to
             _bump(probes, "attempt_deadline_fired")
         else:
@@ -318,6 +342,8 @@ def judge_op(spec, scenario, op, evs, probes):
                 _bump(probes, "outage_over_120s")
             break
         _bump(probes, "retry_fired")
+        if scenario["client"] == "rest":
+            _bump(probes, "rest_retry_fired")
         if is_async:
             _bump(probes, "async_retry_fired")
         if (t_end - t0) + sleep > 120:
